@@ -22,11 +22,15 @@ class Ambiguous(Exception):
 def prices_from_rows(rows, adjust):
     """{date: (open', close')} with the same float expression the data source uses."""
     out = {}
-    for y, m, d, o, c, a in rows:
-        if adjust:
-            out[D.date(y, m, d)] = ((a / c) * o, a)
+    prev_close = float('nan')
+    for y, m, d, o, c, a in sorted(rows, key=lambda r: (r[0], r[1], r[2])):
+        close = a if adjust else c
+        if o is None:
+            op = prev_close              # an empty Open cell: the latest earlier observation is the previous close
         else:
-            out[D.date(y, m, d)] = (o, c)
+            op = (a / c) * o if adjust else o
+        out[D.date(y, m, d)] = (op, close)
+        prev_close = close
     return out
 
 
